@@ -299,9 +299,29 @@ func runC15(c *Ctx) {
 			col   int
 		}
 		var uses []memberUse
-		for _, v := range w.Vars {
-			emit("---@type " + v.TypeStr)
-			emit(fmt.Sprintf("local %s = {}", v.Name))
+		// declarations: one variable per statement, or runs of 2-3 variables declared by one statement under one
+		// `---@type A, B, C` list (the n-th type belongs to the n-th variable)
+		rd := r.Fork(0x6d756c7469)
+		for i := 0; i < len(w.Vars); {
+			k := 1
+			if rd.Chance(1, 3) {
+				k = rd.Range(2, 3)
+			}
+			if i+k > len(w.Vars) {
+				k = len(w.Vars) - i
+			}
+			var ts, ns, vs []string
+			for _, v := range w.Vars[i : i+k] {
+				ts = append(ts, v.TypeStr)
+				ns = append(ns, v.Name)
+				vs = append(vs, "{}")
+			}
+			emit("---@type " + strings.Join(ts, ", "))
+			emit(fmt.Sprintf("local %s = %s", strings.Join(ns, ", "), strings.Join(vs, ", ")))
+			if k > 1 {
+				c.Count("multi_variable_typed_declarations", 1)
+			}
+			i += k
 		}
 		for _, v := range w.Vars {
 			if v.Class == "" {
